@@ -182,6 +182,9 @@ def units_for(prop, tier, gdir):
         for u in uroute.units_for_container(cn, gen):
             if tier == 'thorough' or ((u.short in uroute.QUICK or cn in uroute.QUICK_ALL) and cn not in uroute.THOROUGH_ONLY):
                 u.spec = specs[cn]
+                if tier == 'quick':
+                    u.timeout = 500  # a quick check has 15 minutes; a route U unit that does not finish leaves the bounded result standing
                 units.append(u)
     units = list({u.id: u for u in units}.values())  # identical units (e.g. constructors) are planned once
+    units.sort(key=lambda u: 0 if isinstance(u, uroute.UUnit) else 1)  # the z3 units start first (stable sort)
     return units, notes
